@@ -1,3 +1,5 @@
+import copy
+
 from dataflows import PackageWrapper
 from dataflows.helpers.resource_matcher import ResourceMatcher
 
@@ -8,7 +10,9 @@ def update_resource(resources, **props):
         matcher = ResourceMatcher(resources, package.pkg)
         for resource in package.pkg.descriptor['resources']:
             if matcher.match(resource['name']):
-                resource.update(props)
+                # every resource gets values of its own (a later step that edits one
+                # resource's descriptor in place must not reach the others, nor the caller's arguments)
+                resource.update(copy.deepcopy(props))
         yield package.pkg
 
         res_iter = iter(package)
